@@ -13,16 +13,20 @@ EXHAUSTIVE = {"quick": "all 700 datasets of <=2 rankings over 3 elements x 7 con
 ASSUMPTIONS = ["starters observed through harness-side wrapper algorithms (RankAggAlgorithm subclasses)"]
 
 
+# starting algorithms nested (a local search started from a local search) or given as a set / a dictionary view
+BIO2 = BIO + ["Bio[BioCo]", "Bio{Copeland}", "BioValues[Borda]"]
+
+
 def _nt(rec):
     return rec["out"] == "consensus" and ac.n_elems(rec) >= 3
 
 
 def stages(tier, rng, only=None):
-    out = [ac.stage("grid3x2", PID, lambda: ac.cases(grids.datasets(3, 2), BIO, SCHEMES, namings=["ints", "letters"]),
+    out = [ac.stage("grid3x2", PID, lambda: ac.cases(grids.datasets(3, 2), BIO2, SCHEMES, namings=["ints", "letters"]),
                     _nt)]
     n_rand = 400 if tier == "quick" else 4000
     out.append(ac.stage("random", PID, lambda: ac.cases([ac.random_dataset(rng, 7, 6, nmin=3) for _ in range(n_rand)],
-                                                        BIO, SCHEMES + ac.grid_sample(rng, 8),
+                                                        BIO2, SCHEMES + ac.grid_sample(rng, 8),
                                                         namings=["ints", "letters", "collide"]), _nt))
     out.append(ac.stage("tiny_penalties", PID, lambda: ac.cases(
         [ac.random_dataset(rng, 6, 6, nmin=3) for _ in range(n_rand // 2)], BIO, ac.TINY,
@@ -40,7 +44,7 @@ def stages(tier, rng, only=None):
     out.append(ac.stage("tied_heavy", PID, lambda: ac.cases(
         [ac.tied_heavy_dataset(rng, with_empty=k % 3 == 0) for k in range(n_rand)], BIO,
         SCHEMES + [ac.QUARTER], namings=["ints", "letters"]), _nt))
-    out.append(ac.stage("hard_corpus", PID, lambda: ac.corpus_cases(BIO) + ac.corpus_cases(
+    out.append(ac.stage("hard_corpus", PID, lambda: ac.corpus_cases(BIO2) + ac.corpus_cases(
         [c for c in BIO if c != "BioConsert"], reuse="refused_first") + ac.corpus_cases(BIO, reuse="other"), _nt))
     out.append(ac.stage("refused_first", PID, lambda: ac.refused_first_cases(
         [ac.random_dataset(rng, 7, 6, nmin=4) for _ in range(n_rand)] + [ac.cyclic_dataset(rng, 4, 6) for _ in range(n_rand // 2)]
